@@ -213,6 +213,49 @@ pub fn run_stats_rt(
             }
         }
     }
+    // --- drift seen by a run that collects less: a file written by the stave checks (it holds ALPIDE statistics)
+    // compared by the same check without the stave level - what both collect must still be compared
+    if !fatal && a.argv.iter().any(|x| x == "its-stave") && a.argv.iter().any(|x| x == "all") {
+        let mut c = bb.clone();
+        let mut argv: Vec<String> = Vec::new();
+        let mut skip = 0;
+        for x in c.argv.iter() {
+            if skip > 0 {
+                skip -= 1;
+                continue;
+            }
+            if x == "-s" || x == "-p" {
+                skip = 1;
+                continue;
+            }
+            argv.push(if x == "its-stave" { "its".to_string() } else { x.clone() });
+        }
+        c.argv = argv;
+        let path: Vec<String> = vec!["rdh_stats".into(), "rdhs_seen".into()];
+        if let Some(d) = perturb(&doc, &path) {
+            if let Some(text) = render(&d, &ext) {
+                c.input_stats = Some(text);
+                let rc = ex.exec(&c);
+                ex.fault("stored_statistic_perturbed_read_by_a_run_that_collects_less");
+                if let Some(f) = check_orderly(&rc) {
+                    out.fail = Some(f);
+                    return out;
+                }
+                if !mismatch_reported(&rc) || rc.status != exit_code {
+                    out.fail = fail(
+                        "leaf-drift-not-reported-by-a-run-that-collects-less:rdh_stats.rdhs_seen",
+                        format!(
+                            "rdhs_seen changed in a file written by the stave checks, compared by `{}`: mismatch reported = {}, status {} (expected {exit_code})",
+                            c.cmdline(),
+                            mismatch_reported(&rc),
+                            rc.status
+                        ),
+                    );
+                    return out;
+                }
+            }
+        }
+    }
     // --- drift: two neighbouring entries of a stored list change places (every list of scalars whose first two
     // entries differ): the statistic is the list as written, order included
     {
